@@ -108,6 +108,10 @@ def run_harness(binpath, testname, cwd, outfile, env_extra, timeout=1800, test=T
     env.setdefault("GOMEMLIMIT", "12GiB")
     if os.path.exists(outfile):
         os.remove(outfile)
+    # quick tier: no harness run is allowed to sit for more than 15 minutes (the Go test binary's own -test.timeout then
+    # panics with a goroutine dump, which lands in the replay file of the broken tie)
+    if str(env_extra.get("VERIF_TIER", "quick")) != "thorough":
+        timeout = min(timeout, 900)
     if test:
         cmd = [binpath, "-test.run", "^%s$" % testname, "-test.v", "-test.timeout", "%ds" % timeout]
     else:
